@@ -39,12 +39,12 @@ type Case struct {
 
 var allLayouts = []geom.Layout{geom.XY, geom.XYZ, geom.XYM, geom.XYZM, geom.Layout(5), geom.Layout(6), geom.Layout(7), geom.Layout(9), geom.NoLayout}
 
-var routes = []string{"setcoords", "mustset", "flat", "flat-noends", "push", "clone", "clonepush", "clonepush", "reserve", "reset", "wkb", "ewkb", "wkt", "geojson"}
+var routes = []string{"setcoords", "mustset", "flat", "flat-noends", "push", "clone", "clonepush", "clonepush", "selfalias", "selfalias", "reserve", "reset", "wkb", "ewkb", "wkt", "geojson"}
 
 func genCase(t *rapid.T) Case {
 	floats := rapid.SampledFrom([]int{gen.AllBits, gen.AllBits, gen.SmallInt, gen.Finite}).Draw(t, "floats")
 	valid := rapid.IntRange(0, 3).Draw(t, "valid") == 0
-	o := gen.TreeOpts{Layouts: allLayouts, Kinds: gen.SevenKinds, Floats: floats, MaxParts: 4, MaxPts: 5, PEmpty: 25, Valid: valid}
+	o := gen.TreeOpts{Layouts: allLayouts, Kinds: gen.SevenKinds, Floats: floats, MaxParts: 4, MaxPts: 5, PEmpty: 25, Valid: valid, LongPct: 2}
 	g := gen.Tree(t, o)
 	if g.Layout == 0 {
 		// NoLayout: only geometries without any component can be set
@@ -408,6 +408,8 @@ func obtain(c Case) (geom.T, string, error) {
 	route := c.Route
 	std := g.Layout >= 1 && g.Layout <= 4 && g.Kind != model.LinearRing
 	switch route {
+	case "selfalias":
+		route = "setcoords"
 	case "clonepush": // kinds without Push (and NoLayout): plain Clone
 		route = "clone"
 	case "wkb", "ewkb":
@@ -587,6 +589,11 @@ func prop(c Case) error {
 			return err
 		}
 	}
+	if c.Route == "selfalias" && g.Layout != 0 {
+		if done, err := selfAlias(c); done {
+			return err
+		}
+	}
 	t, route, err := obtain(c)
 	if err != nil {
 		return fmt.Errorf("route %s: %v", route, err)
@@ -680,6 +687,84 @@ func clonePush(c Case) (bool, error) {
 		return true, err
 	}
 	return true, lossless("clone after Clone and Push on both", cl, with(pc), true)
+}
+
+// selfAlias sets a geometry's coordinates from slices that alias its OWN current
+// storage (what Coord(i) and the part accessors hand out), in reversed order:
+// reading back must give the reversed values as they were before the call.
+func selfAlias(c Case) (bool, error) {
+	g := &c.G
+	stride := g.Stride()
+	t, err := setCoords(newEmpty(g.Kind, g.Lay()), g)
+	if err != nil {
+		return true, fmt.Errorf("selfalias: %v", err)
+	}
+	flat := t.FlatCoords()
+	alias := func(off, n int) []geom.Coord { // n coordinates starting at ordinate off, reversed, aliasing flat
+		out := make([]geom.Coord, n)
+		for i := 0; i < n; i++ {
+			k := off + (n-1-i)*stride
+			out[i] = geom.Coord(flat[k : k+stride : k+stride])
+		}
+		return out
+	}
+	rev := func(cs [][]model.F) [][]model.F {
+		out := make([][]model.F, len(cs))
+		for i := range cs {
+			out[i] = append([]model.F{}, cs[len(cs)-1-i]...)
+		}
+		return out
+	}
+	want := g.Clone()
+	switch tt := t.(type) {
+	case *geom.LineString:
+		want.C1 = rev(g.C1)
+		_, err = tt.SetCoords(alias(0, len(g.C1)))
+	case *geom.LinearRing:
+		want.C1 = rev(g.C1)
+		_, err = tt.SetCoords(alias(0, len(g.C1)))
+	case *geom.Polygon, *geom.MultiLineString:
+		var css [][]geom.Coord
+		off := 0
+		for i, r := range g.C2 {
+			want.C2[i] = rev(r)
+			css = append(css, alias(off, len(r)))
+			off += len(r) * stride
+		}
+		// parts in reversed order too
+		for i, j := 0, len(css)-1; i < j; i, j = i+1, j-1 {
+			css[i], css[j] = css[j], css[i]
+			want.C2[i], want.C2[j] = want.C2[j], want.C2[i]
+		}
+		if p, ok := tt.(*geom.Polygon); ok {
+			_, err = p.SetCoords(css)
+		} else {
+			_, err = tt.(*geom.MultiLineString).SetCoords(css)
+		}
+	case *geom.MultiPolygon:
+		var csss [][][]geom.Coord
+		off := 0
+		for i, p := range g.C3 {
+			var css [][]geom.Coord
+			for j, r := range p {
+				want.C3[i][j] = rev(r)
+				css = append(css, alias(off, len(r)))
+				off += len(r) * stride
+			}
+			csss = append(csss, css)
+		}
+		for i, j := 0, len(csss)-1; i < j; i, j = i+1, j-1 {
+			csss[i], csss[j] = csss[j], csss[i]
+			want.C3[i], want.C3[j] = want.C3[j], want.C3[i]
+		}
+		_, err = tt.SetCoords(csss)
+	default:
+		return false, nil
+	}
+	if err != nil {
+		return true, fmt.Errorf("selfalias SetCoords: %v", err)
+	}
+	return true, lossless("SetCoords from the geometry's own (aliased) coordinates in reversed order", t, want, true)
 }
 
 func classify(c Case) ([]string, bool) {
